@@ -281,5 +281,12 @@ func c13(r *h.Result, rng *h.Rng, tier string, replay string) error {
 	if err := c13Confined(r, rng.Fork(), rounds); err != nil {
 		return err
 	}
-	return c13Dates(r)
+	if err := c13Dates(r); err != nil {
+		return err
+	}
+	n := 150
+	if tier != "quick" {
+		n = 3000
+	}
+	return c13HTTP(r, rng.Fork(), n)
 }
